@@ -5,13 +5,15 @@ namespace Cocls.Pool
 set_option maxHeartbeats 4000000
 
 theorem inv_wLoop {c : Cfg} {s : State} {t : Nat} (h : Inv c s) (hpc : s.pc t = Pc.wLoop) :
-    Inv c (stepWLoop s t).1 := by
+    Inv c (stepWLoop c s t).1 := by
   have hnd : s.detached t = false := by
     have := h.z_det t; grind [Pc.isLoop]
   have hnw : t ∉ s.waitq := by
     have := h.s_wq_pc t; grind
   have hwk : s.woken t = false := by
     have := h.s_woken t; grind
+  have hmx : s.mx = some t := (h.m_own t).2 (Or.inl hpc)
+  have hmu : ∀ u, s.mx = some u → u = t := by intro u hu; rw [hmx] at hu; injection hu with e; exact e.symm
   unfold stepWLoop
   split
   · inv_step h
@@ -20,6 +22,28 @@ theorem inv_wLoop {c : Cfg} {s : State} {t : Nat} (h : Inv c s) (hpc : s.pc t = 
       have hj : j ∈ s.q := by simp [hq]
       inv_step h
     · inv_step h
+
+theorem inv_wCvEnter {c : Cfg} {s : State} {t : Nat} (h : Inv c s) (hpc : s.pc t = Pc.wCvEnter) :
+    Inv c (stepWCvEnter s t).1 := by
+  have hnw : t ∉ s.waitq := by
+    have := h.s_wq_pc t; grind
+  have hwk : s.woken t = false := by
+    have := h.s_woken t; grind
+  have hq := (h.m_enter t hpc).1
+  have hx := (h.m_enter t hpc).2
+  have hmx : s.mx = some t := (h.m_own t).2 (Or.inr hpc)
+  have hmu : ∀ u, s.mx = some u → u = t := by intro u hu; rw [hmx] at hu; injection hu with e; exact e.symm
+  have hta : t ∉ s.awake := by
+    intro hm; have := (h.a_mem hx t).1 hm; grind
+  unfold stepWCvEnter
+  inv_step h
+
+theorem inv_wRelock {c : Cfg} {s : State} {t : Nat} (h : Inv c s) (hpc : s.pc t = Pc.wRelock)
+    (hmx : s.mx = none) : Inv c (stepWRelock s t).1 := by
+  have hno : ∀ u, s.pc u ≠ Pc.wLoop ∧ s.pc u ≠ Pc.wCvEnter := by
+    intro u; have := (h.m_own u).2; grind
+  unfold stepWRelock
+  inv_step h
 
 theorem inv_wCvCheck {c : Cfg} {s : State} {t : Nat} (h : Inv c s) (hpc : s.pc t = Pc.wCvCheck) :
     Inv c (stepWCvCheck s t).1 := by
@@ -46,6 +70,12 @@ theorem inv_wRun {c : Cfg} {s : State} {t j : Nat} (h : Inv c s) (hpc : s.pc t =
     have := h.b_defpc t; grind [Pc.bodyPhase]
   unfold stepWRun
   inv_step h
+  case r_on =>
+    intro j' hr
+    by_cases hjj : j' = j
+    · exact ⟨t, htw, by simp [hjj]⟩
+    · simp only [hjj, ↓reduceIte] at hr ⊢
+      exact h.r_on j' hr
 
 theorem inv_fin {c : Cfg} {s : State} {t : Nat} (h : Inv c s)
     (hpc : s.pc t = Pc.wExit ∨ (s.pc t = Pc.idle ∧ s.ret t = Ret.script ∧ s.todo t = []) ∨
